@@ -129,6 +129,15 @@ def prop_graph(rec):
             r = sandbox.configure(src, bld, env, backend=backend,
                                   extra=['--enable-shared',
                                          '--enable-static'])
+            if model.get('clash'):
+                if r.rc == 0:
+                    raise Violation(
+                        'graph/two-producers-accepted', 'the script declares '
+                        'a {} named like the file an earlier step produces, '
+                        'but configuration succeeded: two rules for one '
+                        'name'.format(model['clash'][1]), case)
+                rec.classes['name-clash-rejected'] += 1
+                return
             if r.rc != 0:
                 raise Violation('graph/configure-failed', 'a valid script '
                                 'was rejected: ' + r.err.strip()[-800:], case)
@@ -201,13 +210,27 @@ def prop_graph(rec):
                 if not os.path.exists(path):
                     continue
                 t = clock.tick(tmp)
+                # source files are alternately touched in place and replaced
+                # by a new file (what editors and tools that write a
+                # temporary file and rename it do)
+                replaced = f.startswith(graph.S) and (
+                    files.index(f) % 2 == 1 or any(
+                        m.get('link') == 'hardlink' and f in m['inputs']
+                        for m in need_may))
+                if replaced:
+                    with open(path, 'rb') as fh:
+                        data = fh.read()
+                    sandbox.write_file(path + '.vfnew',
+                                       data.decode() + '/* edited */\n')
+                    os.replace(path + '.vfnew', path)
                 set_mtime(path, t)
                 r, ex = do_build(['all'])
                 if r.rc != 0:
                     raise Violation('graph/touch/build-failed', 'after '
                                     'touching {}: {}'.format(
                                         f, r.err.strip()[-600:]), case)
-                must = graph.dirty_after_touch(need_must, f) & \
+                must = graph.dirty_after_touch(need_must, f,
+                                               replaced=replaced) & \
                     run_keys(need_must)
                 may = graph.dirty_after_touch(need_may, f, may=True) & \
                     run_keys(need_may)
@@ -217,7 +240,8 @@ def prop_graph(rec):
                     may = may | {m['key'] for m in need_may
                                  if f in m['outputs']}
                 check_exec('touch', ex, must, may, case,
-                           ' (after touching {})'.format(f))
+                           ' (after {} {})'.format(
+                               'replacing' if replaced else 'touching', f))
             # (d) named targets from a cleaned tree
             named = [m for m in g if m['phony']][:3]
             extra_targets = [(m['outputs'][0][2:], [m['outputs'][0]])
@@ -253,7 +277,7 @@ def prop_graph(rec):
 def cases(backend):
     from hypothesis import strategies as st
     return st.fixed_dictionaries({
-        'model': graph.projects(),
+        'model': graph.projects(allow_clash=True),
         'backend': st.just(backend),
     })
 
